@@ -6,15 +6,22 @@
 import SkModel.Gen.Generated
 import SkModel.Runner
 import SkModel.Since
+import SkModel.Theorems.C16
 
 namespace Sk.Gen
 open Sk Sk.Py
 
 /-- how the model's `Except SeekErr` outcomes appear as Python outcomes -/
-def ofSeek : Except SeekErr Tok → Py.Res Tok
+def errName : SeekErr → String
+  | .maxLineLen => "MaxSearchableLineLengthReached"
+  | .assertFailed => "AssertionError"
+  | .tooManyUndated => "TooManyLinesWithoutDate"
+  | .noTimestamps => "NoTimestampsFoundInFile"
+  | .noValidLines => "NoValidLinesFoundInFile"
+
+def ofSeek {α : Type} : Except SeekErr α → Py.Res α
   | .ok t => .ret t
-  | .error .maxLineLen => .exc "MaxSearchableLineLengthReached"
-  | .error _ => .exc "other"
+  | .error e => .exc (errName e)
 
 
 /-! ### helper lemmas -/
@@ -68,7 +75,7 @@ theorem ft_loop (K : SeekK) (F : FileV) (start saved : Int) :
   | zero =>
     intro p cur g hg hp
     obtain ⟨g, rfl⟩ : ∃ g', g = g' + 1 := ⟨g - 1, by omega⟩
-    simp [find_token.loop1, ftLoop, ofSeek]
+    simp [find_token.loop1, ftLoop, ofSeek, errName]
   | succ n ih =>
     intro p cur g hg hp
     obtain ⟨g, rfl⟩ : ∃ g', g = g' + 1 := ⟨g - 1, by omega⟩
@@ -122,7 +129,7 @@ theorem ftr_loop (K : SeekK) (F : FileV) (start : Nat) (saved : Int) :
         have hatt : (((n + 1 : Nat) : Int) - 1 ≤ 0) ↔ n = 0 := by omega
         simp only [hatt]
         by_cases hn : n = 0
-        · simp [hn, ofSeek]
+        · simp [hn, ofSeek, errName]
         · obtain ⟨m, rfl⟩ : ∃ m, n = m + 1 := ⟨n - 1, by omega⟩
           by_cases hedge : (start : Int) + (cur - (readLen F r s : Int)) ≤ -(K.H : Int)
           · simp [hedge, ofSeek]
@@ -165,9 +172,96 @@ theorem bridge_find_token_reverse (K : SeekK) (F : FileV) (start : Nat) (pos0 : 
   simp only [find_token_reverse, findTokenReverse, hn]
   exact ftr_loop K F start _ fuel n _ _ (by omega) (by omega)
 
+
+/-! ### `try_find_line`, `_line_date_is_valid`, `apply_to_line` (third session) -/
+
+/-- the five nested range assertions = the model's one conjunction test -/
+theorem tfl_checks (F : FileV) (a b : Tok) :
+    (if a.off ≤ (F.len : Int) then
+      if a.off ≥ (0 : Int) then
+        if b.off ≤ (F.len : Int) then
+          if b.off ≥ (0 : Int) then
+            if b.off ≥ a.off then Py.Res.ret (LLine.mk a b)
+            else Py.Res.exc "AssertionError"
+          else Py.Res.exc "AssertionError"
+        else Py.Res.exc "AssertionError"
+      else Py.Res.exc "AssertionError"
+    else Py.Res.exc "AssertionError") =
+    ofSeek (if a.off ≤ F.len ∧ 0 ≤ a.off ∧ b.off ≤ F.len ∧ 0 ≤ b.off ∧ a.off ≤ b.off then
+      Except.ok ⟨a, b⟩ else Except.error SeekErr.assertFailed) := by
+  by_cases h1 : a.off ≤ (F.len : Int) <;> by_cases h2 : (0 : Int) ≤ a.off <;>
+    by_cases h3 : b.off ≤ (F.len : Int) <;> by_cases h4 : (0 : Int) ≤ b.off <;>
+    by_cases h5 : a.off ≤ b.off <;> simp [h1, h2, h3, h4, h5, ofSeek, errName]
+
+/-- `try_find_line` as written = `Sk.tryFindLine` (C11, C04): the two scans (or the known line
+    feeds), the five range assertions, the `LogLine` built from them. -/
+theorem bridge_try_find_line (K : SeekK) (F : FileV) (epi : Nat) (slf elf : Option Int)
+    (pos0 : Int) (fuel : Nat) (hf : K.EXP < fuel) (hE : 0 < K.EXP) :
+    try_find_line K F (epi : Int) slf elf pos0 fuel = ofSeek (tryFindLine K F epi slf elf) := by
+  unfold try_find_line tryFindLine
+  cases slf <;> cases elf <;>
+    simp only [bridge_find_token K F epi _ fuel hf,
+      bridge_find_token_reverse K F epi _ fuel hf hE, bind, Except.bind, pure, Except.pure]
+  · cases h1 : findToken K F epi <;> simp only [ofSeek]
+    cases h2 : findTokenReverse K F epi <;> dsimp only
+    exact tfl_checks F _ _
+  · cases h2 : findTokenReverse K F epi <;> simp only [ofSeek]
+    exact tfl_checks F _ _
+  · cases h1 : findToken K F epi <;> simp only [ofSeek]
+    exact tfl_checks F _ _
+  · exact tfl_checks F _ _
+
+/-- `_line_date_is_valid` as written: `ts is not None and ts >= since` -/
+theorem bridge_line_date_is_valid (since : Int) (ts : Option Int) :
+    line_date_is_valid since ts =
+      .ret (match ts with | none => false | some t => decide (since ≤ t)) := by
+  unfold line_date_is_valid
+  cases ts with
+  | none => rfl
+  | some t =>
+    by_cases h : t < since
+    · have h' : ¬ since ≤ t := by omega
+      simp [h, h']
+    · have h' : since ≤ t := by omega
+      simp [h, h']
+
+/-- how the model's outcome + counters appear as the translated function's result -/
+def ofCount (r : SinceStats × COut) : Py.Res (Bool × Int × Int) :=
+  match r.2 with
+  | .pass => .ret (true, (r.1.pass : Int), (r.1.fail : Int))
+  | .fail => .ret (false, (r.1.pass : Int), (r.1.fail : Int))
+  | .undec => .exc "CouldNotApplyConstraint"
+
+/-- `apply_to_line` as written (timestamp extraction = the oracle argument, datetimes as their
+    second counts) = the model's `applyCount` on calendar values (C16): same outcome, same
+    counters. -/
+theorem bridge_apply_to_line (since : Civil) (ts : Option Civil) (st : SinceStats)
+    (hs : since.valid = true) (ht : ∀ t, ts = some t → t.valid = true) :
+    apply_to_line since.toSeconds (ts.map Civil.toSeconds) (st.pass : Int) (st.fail : Int) =
+      ofCount (applyCount since st ts) := by
+  cases ts with
+  | none => simp [apply_to_line, applyCount, applyToLine, ofCount]
+  | some t =>
+    have hv := ht t rfl
+    have ho := civil_order t since hv hs
+    cases hlt : t.lt since with
+    | true =>
+      have h' : ¬ since.toSeconds ≤ t.toSeconds := by
+        have := ho.mp hlt; omega
+      simp [apply_to_line, bridge_line_date_is_valid, applyCount, applyToLine, ofCount, hlt, h']
+    | false =>
+      have h' : since.toSeconds ≤ t.toSeconds := by
+        have : ¬ t.toSeconds < since.toSeconds := fun h => by
+          have := ho.mpr h; simp [hlt] at this
+        omega
+      simp [apply_to_line, bridge_line_date_is_valid, applyCount, applyToLine, ofCount, hlt, h']
+
 #print axioms bridge_num_parallel_tasks
 #print axioms bridge_since_window
 #print axioms bridge_find_token
 #print axioms bridge_find_token_reverse
+#print axioms bridge_try_find_line
+#print axioms bridge_line_date_is_valid
+#print axioms bridge_apply_to_line
 
 end Sk.Gen
